@@ -1265,13 +1265,19 @@ class CompartmentalModel:
         self._assert_not_finalized()
         msg = f"A derived output named {name} already exists."
         assert name not in self._derived_output_requests, msg
-        for k, v in func.kwargs.items():
-            if isinstance(v, params.DerivedOutput):
-                source = v.key
-                assert (
-                    source in self._derived_output_requests
-                ), f"Source {source} has not been requested."
-                self._derived_output_graph.add_edge(source, name)
+        # Every derived output the function refers to - as a positional or keyword argument, or
+        # nested inside another expression - must already have been requested
+        sources = sorted(
+            v.key
+            for v in ComputeGraph(func).get_input_variables()
+            if v.source == "derived_outputs"
+        )
+        for source in sources:
+            assert (
+                source in self._derived_output_requests
+            ), f"Source {source} has not been requested."
+        for source in sources:
+            self._derived_output_graph.add_edge(source, name)
 
         self._derived_output_graph.add_node(name)
         self._derived_output_requests[name] = request = {
